@@ -165,9 +165,15 @@ def payload_of(n):
     return bytes(range(1, n + 1))
 
 
+def cl_for(raw, B):
+    """a chunked request may carry a Content-Length as well (a proxy that re-chunked, a server that passes both on): the transfer
+    coding decides, whatever the number says.  A pure function of the case, so that a replay builds the same request."""
+    return [None, '0', str(len(raw)), str(len(raw) // 2)][(len(raw) + B) % 4]
+
+
 def run_component(om, errs, ex, raw, B, short=True):
     stream = ChoiceStream(ex, raw, _src_prefix(), short=short, menu_cap=6 if len(raw) > 30 else None)
-    env = wsgi.environ('POST', '/', input=stream, clen=None, chunked=True)
+    env = wsgi.environ('POST', '/', input=stream, clen=cl_for(raw, B), chunked=True)
     req = om.Request(env, config={'max_memfile_size': B})
     obs = {'hang': False, 'err': None, 'client_error': False, 'content': None}
     try:
@@ -183,7 +189,17 @@ def run_component(om, errs, ex, raw, B, short=True):
         except Horizon:
             obs['hang'] = True
         except errs.RequestError:
-            pass
+            # ... and so does a copy of the request taken after the refusal (an after-request hook that logs the body)
+            try:
+                obs['second_look'] = req.copy().body.read()
+                obs['via_copy'] = True
+            except Horizon:
+                obs['hang'] = True
+            except errs.RequestError:
+                pass
+            except Exception as e2:   # noqa
+                obs['err'] = f'access through request.copy(): {type(e2).__name__}: {e2}'
+                obs['client_error'] = False
         except Exception as e2:   # noqa
             obs['err'] = f'second access: {type(e2).__name__}: {e2}'
             obs['client_error'] = False
@@ -204,7 +220,7 @@ def run_wsgi(om, errs, ex, raw, B, short=True):
         b2 = app.request.body.read()
         return b1 if b1 == b2 else b'SECOND-LOOK-DIFFERS:' + b1 + b'|' + b2
     app.route('/p', 'POST', h)
-    env = wsgi.environ('POST', '/p', input=stream, clen=None, chunked=True)
+    env = wsgi.environ('POST', '/p', input=stream, clen=cl_for(raw, B), chunked=True)
     obs = {'hang': False, 'err': None, 'client_error': False, 'content': None}
     try:
         c = wsgi.call(app, env)
@@ -268,8 +284,8 @@ def judge(mode, obs, payload, fits, allowed=None):
     if obs['err'] and not obs['client_error']:
         return 'server-fault', f'not a client error: {obs["err"]}'
     if obs.get('second_look') is not None:
-        return 'accepted-on-second-access', (f'refused with {obs["err"]} at first; a second access to request.body then presented '
-                                             f'{obs["second_look"]!r} as the body')
+        how = 'request.copy().body (copy taken after the refusal)' if obs.get('via_copy') else 'a second access to request.body'
+        return 'accepted-on-second-access', f'refused with {obs["err"]} at first; {how} then presented {obs["second_look"]!r} as the body'
     if mode == 'legal':
         if obs['client_error']:
             if fits:
@@ -291,6 +307,8 @@ def judge(mode, obs, payload, fits, allowed=None):
 
 
 def explore_case(res, om, errs, runner, kind, raw, B, mode, payload, fits, case_extra, horizon, short=True, allowed=None):
+    if core.saturated(res):
+        return set()
     memo = res.setdefault('_memo', {})
     mk = (raw, mode, fits, short, tuple(allowed) if allowed is not None else None)
     if mk in memo:           # the same bytes under the same expectation were already explored in this shard
@@ -299,6 +317,8 @@ def explore_case(res, om, errs, runner, kind, raw, B, mode, payload, fits, case_
     ex = EnvExplorer(merge=True, horizon=horizon, max_execs=1500)
     verdicts = memo[mk] = set()
     for choices, obs in ex.explore(lambda e: runner(om, errs, e, raw, B, short)):
+        if core.saturated(res):
+            break
         res['execs'] += 1
         res['transitions'] += len(obs['calls'])
         c = res['counters']
@@ -520,6 +540,6 @@ def replay(case):
     v = judge(case['mode'], obs, case['payload'], case['fits'], case.get('allowed'))
     if v is None:
         return None
-    return (f'{case["kind"]}: chunked body {raw!r} ({case["what"]}) with max_memfile_size={B}, reads '
+    return (f'{case["kind"]}: chunked body {raw!r} ({case["what"]}; Content-Length header {"absent" if cl_for(raw, B) is None else cl_for(raw, B)}) with max_memfile_size={B}, reads '
             f'{[r for r, _ in obs["calls"]]} answered with {[k for _, k in obs["calls"]]} bytes: {v[1]} '
             f'(payload {case["payload"]!r})')
